@@ -37,7 +37,7 @@ inductive Err where
   | tooLong        -- ReadVarString / ReadVarBytes above its guard
   | badPver        -- message invalid for protocol version
   | txCount        -- headers: block headers may not contain transactions
-  | userAgent      -- version: user agent too long
+  | userAgent      -- version: user agent too long (encode; on decode the bounded read reports tooLong first)
   | addrPver       -- addr: more than one address below MultipleAddressVersion (encode only)
   | oversizeGlobal -- frame: length > maxMessagePayload()
   | magic          -- frame: message from other network
@@ -360,9 +360,10 @@ def decLocator (mk : Nat → List Bytes → Bytes → Msg) : Rd Msg := do
   pure (mk pv loc stop)
 
 /-- MsgVersion.Bsvdecode: every field after AddrYou is read only `if buf.Len() > 0`;
-    the user agent is read with ReadVarString (guard = the GLOBAL max payload) and
-    checked against MaxUserAgentLen only afterwards -/
-def decVersion (gmax pver : Nat) : Rd Msg := do
+    the user agent is read with ReadVarBytes bounded by MaxUserAgentLen (so an over-long
+    length is refused BEFORE the buffer is made; repaired defect C14-F1), then
+    validateUserAgent as before (which can no longer fail) -/
+def decVersion (pver : Nat) : Rd Msg := do
   let pv ← get32le
   let sv ← get64le
   let ts ← get64le
@@ -373,7 +374,7 @@ def decVersion (gmax pver : Nat) : Rd Msg := do
   let nonce ← (if r > 0 then get64le else pure 0)
   let r ← Rd.remaining
   let ua ← (if r > 0 then (do
-      let s ← getVarBytes gmax
+      let s ← getVarBytes maxUserAgentLen
       if s.length > maxUserAgentLen then Rd.fail .userAgent else pure s)
     else pure [])
   let r ← Rd.remaining
@@ -404,7 +405,7 @@ def decReject (gmax pver : Nat) : Rd Msg :=
 
 /-- `Bsvdecode(r, pver, _)` on a fresh value of the given concrete type -/
 def decodeRd (gmax pver : Nat) : MsgType → Rd Msg
-  | .MsgVersion => decVersion gmax pver
+  | .MsgVersion => decVersion pver
   | .MsgVerAck => pure .verack
   | .MsgGetAddr => pure .getaddr
   | .MsgAddr => decAddr pver
